@@ -4,7 +4,7 @@
    (Model/C17.v); b2u_rows / u2b_rows are the (Big5 code, UCS-2 code) rows of the two UAO files as
    gosync re-reads them on every run (Gen/Big5Tab.v); utf8_std is the RFC 3629 bit layout and
    utf8_valid the strict well-formedness test of Unicode table 3-7 (Proofs/C17_spec.v).
-   Non-vacuity examples: model_examples (Proofs/C17.v), b2u_rows_nonempty, mutual_nonempty (Proofs/C17_sweep_*.v). *)
+   Non-vacuity examples: model_examples, mutual_str_nonempty (Proofs/C17.v), b2u_rows_nonempty, mutual_nonempty (Proofs/C17_sweep_*.v). *)
 From Verif Require Import Base.Common Gen.Big5Tab Model.C17 Proofs.C17.
 
 (* Big5ToUtf8 returns for every input (no Hang, no exhausted fuel, no Crash); at most 3 output bytes per 2 input bytes *)
@@ -31,6 +31,13 @@ Print Assumptions C17_ascii_transparent_b2u.
 Theorem C17_ascii_transparent_u2b : forall s, all_ascii s -> utf8_to_big5 s = Ok s.
 Proof. exact u2b_ascii. Qed.
 Print Assumptions C17_ascii_transparent_u2b.
+
+(* ... and an ASCII prefix in front of arbitrary bytes is copied while the rest converts as if it stood alone *)
+Theorem C17_ascii_prefix :
+  (forall a s, all_ascii a -> big5_to_utf8 (a ++ s) = res_map (app a) (big5_to_utf8 s)) /\
+  (forall a s, all_ascii a -> utf8_to_big5 (a ++ s) = res_map (app a) (utf8_to_big5 s)).
+Proof. exact (conj b2u_ascii_prefix u2b_ascii_prefix). Qed.
+Print Assumptions C17_ascii_prefix.
 
 (* every row of the Big5 -> UCS table: the two bytes of the code convert to exactly the UTF-8 encoding of
    the entry; every other two-byte code with a lead byte >= 0x80 is dropped. All 32 768 such codes are covered. *)
@@ -64,3 +71,10 @@ Theorem C17_mutual_roundtrip : forall c u, In (c, u) b2u_rows -> In (c, u) u2b_r
   big5_to_utf8 (big5_bytes c) = Ok (utf8_std u) /\ utf8_to_big5 (utf8_std u) = Ok (big5_bytes c).
 Proof. exact mutual_roundtrip. Qed.
 Print Assumptions C17_mutual_roundtrip.
+
+(* ... and so does every string made of ASCII bytes and such codes: mutual_str s t (Proofs/C17.v) says that s is
+   a concatenation of bytes below 0x80 and of two-byte codes (c,u) present in both tables, and t the same
+   sequence with each code replaced by the UTF-8 encoding of u; the conversions are exact inverses on them *)
+Theorem C17_mutual_roundtrip_strings : forall s t, mutual_str s t -> big5_to_utf8 s = Ok t /\ utf8_to_big5 t = Ok s.
+Proof. exact mutual_str_roundtrip. Qed.
+Print Assumptions C17_mutual_roundtrip_strings.
